@@ -1,7 +1,7 @@
 #!/usr/bin/env python3
 """Evaluates seeded changes (verif/seeded/<id>/ or any directory holding patch.diff + demo.py).
 
-usage: tools/seeded.py [--tier quick] [--checks C01,C05] <dir> [<dir> ...]
+usage: tools/seeded.py [--fast] [--tier quick] [--checks C01,C05] <dir> [<dir> ...]
 For each directory: copy /repo's working tree to a scratch directory under /tmp, apply patch.diff there,
 run the repository's test suite (must still pass), run demo.py against the unchanged tree (must pass) and
 against the changed copy (must fail), then run the given checks (default: the property named in meta.json,
@@ -23,6 +23,9 @@ def run(cmd, cwd=None, env=None, timeout=3600):
     return subprocess.run(cmd, cwd=cwd, env=env, capture_output=True, text=True, timeout=timeout)
 
 
+FAST = False  # --fast: only apply the patch and run the checks (regression runs; the confirmation was done when the change was kept)
+
+
 def evaluate(d, tier, checks_override):
     d = os.path.abspath(d)
     name = os.path.basename(d.rstrip("/"))
@@ -39,11 +42,12 @@ def evaluate(d, tier, checks_override):
         res["patch"] = "applied" if r.returncode == 0 else "FAILED: " + (r.stdout + r.stderr)[-300:]
         if r.returncode != 0:
             return res
-        r = run([PY, "-m", "pytest", "-q", "-x", "-p", "no:cacheprovider", "robotools"], cwd=dst)
-        m = re.search(r"(\d+) passed", r.stdout)
-        res["tests"] = f"{m.group(1)} passed" if (r.returncode == 0 and m) else "TESTS FAIL: " + r.stdout[-300:]
+        if not FAST:
+            r = run([PY, "-m", "pytest", "-q", "-x", "-p", "no:cacheprovider", "robotools"], cwd=dst)
+            m = re.search(r"(\d+) passed", r.stdout)
+            res["tests"] = f"{m.group(1)} passed" if (r.returncode == 0 and m) else "TESTS FAIL: " + r.stdout[-300:]
         demo = os.path.join(d, "demo.py")
-        if os.path.exists(demo):
+        if os.path.exists(demo) and not FAST:
             # same layout as in the author's worktree: <tree>/seeded_<name>/demo.py, run from <tree>
             clean = os.path.join(tmp, "clean")
             shutil.copytree("/repo", clean, ignore=shutil.ignore_patterns(".git", "__pycache__", "*.pyc", ".pytest_cache", "seeded_*"))
@@ -75,6 +79,10 @@ def main(argv):
         if argv[i] == "--tier":
             tier = argv[i + 1]
             i += 2
+        elif argv[i] == "--fast":
+            global FAST
+            FAST = True
+            i += 1
         elif argv[i] == "--checks":
             checks = argv[i + 1].split(",")
             i += 2
